@@ -157,9 +157,9 @@ GENERIC_FILES = ['permuta/permutils/pin_words.py', 'permuta/perm_sets/permset.py
 
 
 def variants():
-    from ..selftest import generic_silent
+    from ..selftest import generic_equiv, generic_silent
 
-    return _variants() + generic_silent(GENERIC_FILES)
+    return _variants() + generic_silent(GENERIC_FILES) + generic_equiv(GENERIC_FILES)
 
 
 def _variants():
